@@ -115,6 +115,13 @@ EXTRA = {
             ("SafeC.Norm.composeLoop_eq_pure", "SafeC.Proofs.NormComposeSpec", "lemma", "the compose loop of wcsnorm_compose_s (starter / pre_cc / pending sequence, look-ahead) = a pure streaming composition, all lists, any room"),
             ("SafeC.Norm.composePure_eq_d117", "SafeC.Proofs.NormComposeSpec", "lemma", "the streaming composition = D117 as the Standard words it (seek back for the last starter, D115 blocking, replace and delete) on canonically ordered text when composites of starters are starters"),
             ("SafeC.Norm.d117_congr_pc", "SafeC.Proofs.NormComposeSpec", "lemma", "D117 depends on the pair map only through a closed set containing the text"),
+            ("SafeC.Norm.comp_dec_tree", "SafeC.Proofs.NormIdemTables", "table", "tree: the stored full decomposition of each of the 941 UCD 14.0 primary composites = stored decomposition of its first constituent ++ that of its second (decide +kernel, regenerated tables)"),
+            ("SafeC.Norm.comp_dec_ucd", "SafeC.Proofs.NormIdemTables", "table", "UCD 14.0: the same for the recursive expansion of the single-step mappings (D68)"),
+            ("SafeC.Norm.jamo_ucd_stable", "SafeC.Proofs.NormIdemTables", "table", "UCD 14.0: the conjoining jamo L, V, T have no decomposition"),
+            ("SafeC.Norm.composeGo_roundtrip", "SafeC.Proofs.NormIdem", "lemma", "invariant of the streaming composition (last starter, pre_cc, pending marks), every state: whatever it outputs from here decomposes and reorders to the same string as dec(starter) ++ pending ++ rest"),
+            ("SafeC.Norm.ucd_fullDecomp_stable", "SafeC.Proofs.NormIdemTables", "lemma", "whatever the reference expansion produces for ANY cell value is not expanded further"),
+            ("SafeC.Fold.fcLoop_spec", "SafeC.Proofs.FoldStr", "lemma", "the loop of wcsfc_s for every string and every dmax: each iteration emits fcCell(cp, next), the loop as a whole fcPure, with the exact conditions for too_small / overrun"),
+            ("SafeC.Fold.hot_single_le", "SafeC.Proofs.FoldStr", "table", "_towfc_single maps every code point of the hot ranges to a code point (outside them it is the identity): what wcsfc_s hands to _decomp_s is a valid table index"),
             ("SafeC.Fold.fold_announce_exceptions", "SafeC.Proofs.FoldCount", "full", "each of the 748 listed code points really disagrees (announces 0 but folds / announces 1 but unchanged): the exception lists of fold_announce_partial are tight"),
             ("SafeC.Fold.tables_lit", "SafeC.Proofs.FoldCount", "table", "the written-out copies of casemaps / pairs / casemapsl used by the fold proofs equal the generated tables")],
     "C08": [("SafeC.nullSlack_ok", "SafeC.Lemmas", "lemma", "both slack strategies (memset > 0x20, byte loop) zero the whole tail")],
